@@ -129,10 +129,43 @@ def remove (d : Db) (f : File) : Db :=
     owned := removeOwned d.owned d.inFile f
     inFile := d.inFile.filter fun e => e.1.2 ≠ f }
 
-/-- `DbIndex::clear()` on the modelled maps (`id_count = 0` as in `LuaPropertyIndex::clear`) -/
+/-! which Rust field (DbIndex field, struct field) each model map stands for -/
+
+def perFileField : Nat → Option (String × String)
+  | 0 => some ("diagnostic_index", "diagnostics")
+  | 10 => some ("file_dependencies_index", "dependencies")
+  | 11 => some ("diagnostic_index", "file_diagnostic_disabled")
+  | _ => none
+
+def keyedField : Nat → Option (String × String)
+  | 0 => some ("global_index", "global_decl")
+  | _ => none
+
+def nestedField : Nat → Option (String × String)
+  | 0 => some ("references_index", "index_reference")
+  | 1 => some ("references_index", "global_references")
+  | _ => none
+
+def ownedField : Nat → Option (String × String)
+  | 0 => some ("signature_index", "signatures")
+  | _ => none
+
+def inFileField : Nat → Option (String × String)
+  | 0 => some ("signature_index", "in_file_signatures")
+  | _ => none
+
+/-- `DbIndex::clear()` on the modelled maps: a map is emptied iff the source's `clear` resets its field
+(`srcCleared`, regenerated from the source every run) -/
 def clear (d : Db) : Db :=
-  { d with perFile := [], keyed := [], nested := [], owned := [], inFile := [],
-           props := [], propOwners := [], propInFile := [], propCount := 0 }
+  { perFile := d.perFile.filter fun e => survivesClear (perFileField e.1.1)
+    keyed := d.keyed.filter fun e => survivesClear (keyedField e.1.1)
+    nested := d.nested.filter fun e => survivesClear (nestedField e.1.1)
+    owned := d.owned.filter fun e => survivesClear (ownedField e.1.1)
+    inFile := d.inFile.filter fun e => survivesClear (inFileField e.1.1)
+    props := if survivesClear (some ("property_index", "properties")) then d.props else []
+    propOwners := if survivesClear (some ("property_index", "property_owners_map")) then d.propOwners else []
+    propInFile := if survivesClear (some ("property_index", "in_filed_owner")) then d.propInFile else []
+    propCount := if survivesClear (some ("property_index", "id_count")) then d.propCount else 0 }
 
 /-- a tagged mutation: which file's analysis performs it -/
 abbrev FMut := File × Mut
